@@ -33,6 +33,11 @@ from holopy.scattering.errors import ParameterSpecificationError
 EPS = 1e-6
 
 
+_OPERATOR_OF = {np.add: operator.add, np.subtract: operator.sub,
+                np.multiply: operator.mul, np.true_divide: operator.truediv,
+                np.equal: operator.eq, np.not_equal: operator.ne}
+
+
 def _reciprocal(val):
     return 1 / val
 
@@ -92,6 +97,9 @@ class Prior(HoloPyObject):
         return self * value
 
     def __truediv__(self, value):
+        if isinstance(value, Number) and value == 0:
+            # (a NumPy zero would give 1/0 = inf instead of the error)
+            raise ZeroDivisionError("Cannot divide a prior by 0")
         return self * (1/value)
 
     def __rtruediv__(self, value):
@@ -101,13 +109,27 @@ class Prior(HoloPyObject):
         return self * -1
 
     def __pow__(self, value):
+        if not isinstance(value, (Number, Prior, np.ndarray)):
+            raise TypeError("Cannot raise a prior to the power of objects of "
+                            "type {}".format(type(value)))
         return TransformedPrior(operator.pow, [self, value])
 
     def __rpow__(self, value):
+        if not isinstance(value, (Number, Prior, np.ndarray)):
+            raise TypeError("Cannot raise objects of type {} to the power of "
+                            "a prior".format(type(value)))
         return TransformedPrior(operator.pow, [value, self])
 
     def __array_ufunc__(self, ufunc, method, *args, name=None, **kwargs):
         if method == "__call__" and len(kwargs) == 0:
+            if (ufunc in _OPERATOR_OF and name is None and len(args) == 2 and
+                    all(isinstance(arg, (Number, Prior)) or np.ndim(arg) == 0
+                        for arg in args)):
+                # a NumPy number on the left of + - * / == ends up here; the
+                # operators know about adding 0 and multiplying by 0 and 1
+                args = [arg if isinstance(arg, Prior) else np.asarray(arg).item()
+                        for arg in args]
+                return _OPERATOR_OF[ufunc](*args)
             return TransformedPrior(ufunc, args, name)
         else:
             raise TypeError('Could not apply numpy ufunc to Prior object. '
@@ -211,7 +233,7 @@ class Gaussian(Prior):
         """
         self.mu = mu
         self.sd = sd
-        if sd <= 0:
+        if not sd > 0:
             raise ParameterSpecificationError(
                     "Specified sd of {} is not greater than 0".format(sd))
         self.name = name
